@@ -23,6 +23,7 @@ func init() {
 			"Does not decide: byte-swap stride arithmetic (needs divisibility facts about slice lengths), round-trip equality of payload values, type-switch completeness beyond the explicit default arms.",
 		RuleDocs: []string{
 			"C15.R8 the amount discarded after a packet: stride - length%stride only under a test that the remainder is not zero, else nothing (alternatives followed through phis and helper returns)",
+			"C15.R10 when a helper recomputes the header/packet lengths from the packet's contents, no caller assigns a field the helper reads after calling it without calling it again (the stored lengths describe the contents the encoder will write)",
 			"C15.R9 the byte-order argument of binary.Read is a concrete value or tested non-nil, unless the data argument is a byte slice",
 			"C15.R1 nil-guard dominance on loads of pointer-typed struct fields and on results of may-return-nil accessors",
 			"C15.R2 divisor != 0 by guard dominance (E6) incl. the clamp idiom (phi of guarded value and constant)",
@@ -69,6 +70,7 @@ func runC15(p *Prog, r *Report) {
 	c15R7(p, r)
 	c15R8(p, r, fns)
 	c15R9(p, r, fns)
+	c15R10(p, r)
 }
 
 // ---- R1 -----------------------------------------------------------------------------------
